@@ -157,7 +157,8 @@ def compose(rng, ast, pkgbase, use_components=True, use_bases=True, use_prefixes
         comp_c = {"abstract": main["abstract"], "types": parts[pc], "imports": []}
         main["abstract"] = []
         fa = rng.choice(["component.xml", "extra.xml"])
-        comp_a = {"abstract": [], "types": parts[pa], "imports": [pc]}
+        pc2 = (pc, "component.xml") if rng.random() < 0.4 else pc      # both spellings of one component
+        comp_a = {"abstract": [], "types": parts[pa], "imports": [pc2]}
         comp_b = {"abstract": [], "types": parts[pb],
                   "imports": [pc, (pa, fa) if fa != "component.xml" else pa] + ([pc] if rng.random() < 0.3 else [])}
         imports = [(pa, fa) if fa != "component.xml" else pa, pb]
